@@ -95,9 +95,11 @@ static inline result_t Device_recv(struct Device* d, unsigned timeout, symbol_t*
   __CPROVER_assume(a == as_none || a == as_start || a == as_running || a == as_lost || a == as_timeout || a == as_error || a == as_won);
   /* interface contract (device.h, PlainDevice::recv, enhanced adapter protocol): an arbitration verdict is delivered with the first
      symbol after a SYN (the address that won), with a SYN (timeout), or with an error result - never in the middle of a telegram */
+#ifndef RELAXED_VERDICTS
   __CPROVER_assume(a == as_none || a == as_start || a == as_running || res < 0 || (g_rx.ph == RX_READY && !g_rx.esc) || sym == 0xAA);
   __CPROVER_assume(a != as_timeout || res < 0 || sym == 0xAA);
-  __CPROVER_assume(a != as_won || sym == d->arb_master);    /* the won arbitration is reported with the own address that was written / echoed by the adapter */
+  __CPROVER_assume(a != as_won || sym == d->arb_master);
+#endif    /* the won arbitration is reported with the own address that was written / echoed by the adapter */
   __CPROVER_assume(a != as_won || res >= 0);                 /* "as_won implies RESULT_OK" (device.h) */
   __CPROVER_assume(d->arbitrating || a == as_none);          /* verdicts only while an arbitration was requested */
   if (a == as_lost || a == as_timeout || a == as_error || a == as_won) d->arbitrating = 0;
